@@ -172,6 +172,19 @@ def run(repo: Repo, rep: Report, tier: str) -> None:
     rep.rule("no-lock-across-yield", "no yield lexically inside a `with <lock>` block (nor between acquire/release) in any generator of the package")
     rep.rule("stop-at-final", "the loop is re-entered only after the category was proven Pending, or for the Repository Query 0xB001 warning")
     rep.rule("checkpoint", "every way out of a response generator / send_* passes _reactor_checkpoint.set() after clear()")
+    # the resume belongs to a definite point of the exchange (the final response, the failure path): a set() in the
+    # `finally` of a generator runs whenever that generator object is finalised - for an iterator the caller
+    # dropped that can be in the middle of the *next* operation, whose responses the resumed reactor then eats
+    n_gen = 0
+    assoc = repo.mod("association")
+    for gfn in [f for f in ast.walk(assoc.tree) if isinstance(f, ast.FunctionDef) and any(isinstance(y, (ast.Yield, ast.YieldFrom)) for y in walk_no_nested(f))]:
+        n_gen += 1
+        for t_ in [t_ for t_ in walk_no_nested(gfn) if isinstance(t_, ast.Try)]:
+            yields_in_body = any(isinstance(y, (ast.Yield, ast.YieldFrom)) for b_ in t_.body for y in ast.walk(b_))
+            closers = list(t_.finalbody) + [s_ for h_ in t_.handlers if h_.type is not None and "GeneratorExit" in norm(h_.type) for s_ in h_.body]
+            for c_ in [c_ for s_ in closers for c_ in ast.walk(s_) if isinstance(c_, ast.Call) and norm(c_.func).endswith("_reactor_checkpoint.set")]:
+                rep.check(not yields_in_body, "checkpoint", f"association.{qualname(gfn)}", enclosing(c_, (ast.stmt,)), "the reactor is resumed from the finalisation of a generator (a `finally` / GeneratorExit clause around its yields): when the caller drops an unfinished iterator that runs at an arbitrary later moment - typically right after the next request was sent - and the resumed reactor takes that operation's responses off the queue and discards them; the caller gets no response and the association is aborted", mod=assoc, node=c_)
+    rep.floor("generator methods of Association examined", n_gen, 2)
     rep.rule("failure-path", "timeout -> _handle_no_response(); wrong type / invalid -> abort(); each yields (Dataset(), None) or returns Dataset() and stops")
     for g in GENS:
         check_generator(repo, rep, g)
@@ -280,6 +293,9 @@ def run(repo: Repo, rep: Report, tier: str) -> None:
     from .c15 import check_every_pdv_classified, check_message_reset
     rep.rule("response-complete", "every received PDV is classified by its control header (C15): a response ending in a zero-length last fragment completes")
     check_every_pdv_classified(repo, rep, "response-complete")
+    from ..delegate import delegate
+    rep.rule("response-seen", "a response sitting in the TLS buffer is seen by the reader on every SSLSocket, requestor sockets included (C03's ready-probe)")
+    delegate(repo, rep, tier, "C03", ("ready-probe",), "response-seen", "responses a TLS peer wrote in one record stay in the SSL buffer unseen: the SCU call waits out the DIMSE timeout, aborts a healthy association and surfaces an empty failure result instead of the responses that did arrive")
 
 def check_queue_order(repo: Repo, rep: Report) -> None:
     """DIMSEServiceProvider.get_msg() is the single consumer of the queue the provider thread fills in
